@@ -16,6 +16,30 @@ CHECKS = {
    technique="exhaustive enumeration of every byte offset at which the journal of a real write history can end (EOF and zero-padded), recovery by the real code compared with a prefix model",
    text="For each batch/transaction shape (1..6 items, one and two keyspaces, tombstones, clears, empty values, values on both sides of the compression threshold with Lz4 and None, transactions overwriting one key several times, consecutive batches) the journal produced by the real write path is cut at every byte offset, once ending there and once zero-padded to its preallocated size (which also covers every split point of every write() call); the real recovery must yield exactly the batches that end at or before the cut, never a partial batch, and a batch appended to the repaired journal must be recovered by the next reopen.",
    note="The image is the OS view of the files while the database is open (process crash). Garbage tails are out of scope of the property. Large records are cut at every byte only in the thorough tier (quick: edges + 32 payload offsets + buffer boundaries)."),
+ "C02": dict(level="fault_enumeration", engine="E2-crashcheck (shim)", design="§4, §6 C02",
+   technique="exhaustive crash-point enumeration: a directory image before every file-mutating libc call of every program of a bounded set (LD_PRELOAD shim on the real code), plus torn-write splits; each image recovered by the real code and compared with a prefix model",
+   text="All maximal programs of a small alphabet (writes, batches, transactions of both kinds, clear, keyspace creation, rotation, every queued worker message with and without journal rotation, reopen) up to a depth, plus prepared states (two sealed journals, pending compaction), are run under an interposition shim that numbers every file-mutating libc call and takes the directory image a process killed at that point would leave; every distinct image (and torn variants of journal and table writes) is recovered: open must succeed and the union of all keyspaces must equal the model after exactly the acknowledged operations, possibly plus the in-flight one; afterwards overwrites, removes and a further reopen must behave. The image mechanism is cross-checked against real kills.",
+   note="Single-threaded driver. Images before the first open returned are judged by C17's rule, not C02's. Every byte split of journal appends is C03's; here marker edges/middle/ends."),
+ "C06": dict(level="model_checking", engine="E3-schedcheck", design="§5, §6 C06",
+   technique="stateless model checking of the real code under a controlled scheduler: all thread interleavings up to a preemption bound (iterative context bounding, CHESS style) at cfg-gated scheduling points",
+   text="Bodies of 2-4 real threads (a writer committing batches/transactions over two keyspaces, a reader taking a snapshot or doing one scan, and a third party: fjall's own worker thread flushing/compacting another keyspace, an insert/clear/ingest/delete/create elsewhere, a rotation) are executed under a scheduler that lets exactly one thread run between hooked fjall-level operations; every schedule with at most the stated number of preemptions is executed, cheapest first, and every snapshot/scan must see each batch entirely or not at all and in commit order.",
+   note="Trusted base: lsm-tree calls are atomic steps; sequentially consistent exploration. One genuine defect (lsm-tree raises the shared visible seqno mid-batch) is listed in known_findings.txt."),
+ "C10": dict(level="model_checking", engine="E1-seqcheck", design="§3, §6 C10",
+   technique="bounded exhaustive enumeration of multi-keyspace programs with every order of queued background work and journal rotations on the real code; invariant on every journal deletion plus a crash image recovery at that instant",
+   text="Every program up to the stated depth over inserts into 2-3 keyspaces, a cross-keyspace batch, rotation of each keyspace, every queued worker message in every order with and without journal rotation, keyspace deletion and reopen is executed on the real code; whenever a journal file disappears it must be the oldest, must contain no record above its keyspace's persisted seqno, and a crash image taken at that instant must recover the acknowledged state; at the end of every program all keyspaces are flushed and the journal count must return to one.",
+   note="Journal rotation is triggered through the cfg-gated position override (real threshold 64 MB). clear() is excluded (a cleared keyspace legitimately pins journals)."),
+ "C12": dict(level="model_checking", engine="E1-seqcheck + E2-crashcheck", design="§3, §4, §6 C12",
+   technique="bounded exhaustive enumeration of create/write/delete/re-create/reopen programs on the real code with provenance-carrying values, plus crash-point enumeration of the same kind of programs",
+   text="Every program up to the stated depth over names {x,y,z} (create, open existing with other options, writes, delete with and without surviving handles, writes through old handles, rotation, worker steps, journal rotation, reopen) runs on the real code; values carry the keyspace incarnation that wrote them, so after every step list/exists/count and every keyspace's full observation are compared with the model: a re-created name is empty, nothing of a deleted incarnation appears anywhere, old handles are refused, folders are gone once the database is dropped. The same kind of programs are crash-tested before every file-mutating call.",
+   note="Folder removal is asserted when the database has been dropped (internal handles legitimately delay it)."),
+ "C14": dict(level="model_checking", engine="E3-schedcheck", design="§5, §6 C14",
+   technique="stateless model checking of the real code under a controlled scheduler (all interleavings up to a preemption bound) with a brute-force linearizability check of every recorded history",
+   text="Bodies of 2-3 client threads doing 1-2 single operations on colliding keys through cloned handles, optionally with fjall's own worker threads (tiny memtable, prepared write stall, journal rotation), are executed under every schedule with at most the stated number of preemptions; the call/return history of point operations must be linearizable against a map, scans must satisfy the clause the statement gives them, nothing may error, deadlock or livelock within the horizon.",
+   note="Trusted base: lsm-tree calls are atomic steps; sequentially consistent exploration; liveness only as absence of deadlock/livelock within the horizon."),
+ "C15": dict(level="fault_enumeration", engine="E2-crashcheck (journal surgery)", design="§4, §6 C15",
+   technique="exhaustive enumeration of a product of record shapes for the round trip and of every single-byte alteration of real journals, each recovered by the real code",
+   text="(a) The product of key lengths, value lengths around the compression threshold and the buffer size, contents, tombstone kinds, clear, batch shapes and both compression settings at write and at read time is written by the real write path, crash-imaged and recovered: bytes must be identical. (b) For six representative journals every byte of the used part is altered (13 alterations per byte in the quick tier, all 255 in the thorough tier) and the image recovered: open must fail or yield exactly a prefix of the commit history.",
+   note="Single-byte damage only. One genuine defect (Start-marker seqno outside the checksum) is listed in known_findings.txt."),
 }
 
 NOT_YET = {
